@@ -12,6 +12,9 @@ A_COMMON = [
     'solvers: z3 5.1 (in process), /usr/bin/z3 4.8.12 as second back end',
 ]
 
+CU = 'pygyro/splines/cubic_uniform_spline_eval_funcs.py'
+ADV = 'pygyro/advection/accelerated_advection_steps.py'
+
 PROPS = {
     'C20': dict(
         level='proof',
@@ -33,15 +36,50 @@ PROPS = {
     ),
     'C07': dict(
         level='proof',
-        contracts=['vf.contracts.splines'],
+        contracts=['vf.contracts.cusplines'],
+        lemmas=['cu_is_coxdeboor', 'cu_partition_of_unity'],
         functions=[
             dict(key='pygyro/splines/spline_eval_funcs.py::nu_find_span', gen='find_span', n=(300, 5000)),
             dict(key='pygyro/splines/spline_eval_funcs.py::nu_basis_funs', gen='basis_funs', n=(200, 3000)),
             dict(key='pygyro/splines/spline_eval_funcs.py::nu_basis_funs_1st_der', gen='basis_funs_der', n=(200, 3000)),
             dict(key='pygyro/splines/spline_eval_funcs.py::nu_eval_spline_1d_scalar', gen='eval_1d_scalar', n=(200, 3000)),
             dict(key='pygyro/splines/spline_eval_funcs.py::nu_eval_spline_1d_vector', gen='eval_1d_vector', n=(100, 2000)),
+            dict(key='pygyro/splines/spline_eval_funcs.py::nu_eval_spline_2d_scalar', gen='eval_2d_scalar', n=(100, 2000)),
+            dict(key='pygyro/splines/spline_eval_funcs.py::nu_eval_spline_2d_cross', gen='eval_2d_cross', n=(60, 1000)),
+            dict(key='pygyro/splines/spline_eval_funcs.py::nu_eval_spline_2d_vector', gen='eval_2d_vector', n=(60, 1000)),
+            dict(key=CU + '::cu_find_span', gen='cu_find_span', n=(2000, 40000)),
+            dict(key=CU + '::cu_basis_funs', gen='cu_basis', n=(100, 1000)),
+            dict(key=CU + '::cu_basis_funs_1st_der', gen='cu_basis_der', n=(100, 1000)),
+            dict(key=CU + '::cu_eval_spline_1d_scalar', gen='cu_eval_1d_scalar', n=(1000, 20000)),
+            dict(key=CU + '::cu_eval_spline_1d_vector', gen='cu_eval_1d_vector', n=(300, 5000)),
+            dict(key=CU + '::cu_eval_spline_2d_scalar', gen='cu_eval_2d_scalar', n=(300, 5000)),
+            dict(key=CU + '::cu_eval_spline_2d_cross', gen='cu_eval_2d_cross', n=(100, 2000)),
+            dict(key=CU + '::cu_eval_spline_2d_vector', gen='cu_eval_2d_vector', n=(100, 2000)),
         ],
         assumptions=['dN is the analytic derivative of N (de Boor): cited, not proved',
                      'spec N is the Cox-de Boor recursion restricted to the non-vanishing functions of the span, written a*(n/d)'],
+    ),
+    'C11': dict(
+        level='proof',
+        contracts=['vf.contracts.advection_kernels'],
+        functions=[
+            dict(key=ADV + '::general_v_parallel_advection_eval_step', gen='vpar_general', n=(300, 5000)),
+            dict(key=ADV + '::v_parallel_advection_eval_step', gen='vpar_dispatch', n=(300, 5000)),
+        ],
+        assumptions=['S1 names the value returned by the spline evaluator passed in (general or uniform-cubic); that it is the '
+                     'B-spline value is C07; its precondition on (knots, degree, coeffs) is the class invariant of BSplines/Spline1D '
+                     '(spl1_ok), established by the Python-level callers',
+                     'f_eq is treated as an uninterpreted pure function of its arguments'],
+    ),
+    'C10': dict(
+        level='proof',
+        contracts=['vf.contracts.advection_kernels'],
+        functions=[
+            dict(key=ADV + '::flux_advection', gen='flux_adv', n=(300, 5000)),
+            dict(key=ADV + '::general_get_lagrange_vals', gen='lagr_general', n=(200, 3000)),
+            dict(key=ADV + '::get_lagrange_vals', gen='lagr_dispatch', n=(200, 3000)),
+        ],
+        assumptions=['S1 names the value returned by the spline evaluator passed in (see C07)',
+                     'range of the floor-based real modulo 0 <= x % m < m for m > 0 is a trusted arithmetic fact'],
     ),
 }
